@@ -33,7 +33,7 @@ theorem C02_single_writer : Supv.Gen.fsmStateWriters = ["FiniteStateMachine.set_
 /-- **C02 (trace clause).**  For every history of operations — whatever the oracle answers, internal errors included —
     from every well-formed state, the FSM state reached is connected to the initial one by a path of the (generated)
     transition table, hence of the documented graph. -/
-theorem C02_trace_on_graph (c : Cfg) (ops : List (Nat × Op × List (Query × Bool))) (s : St) (hwf : c.me < s.modes.length) :
+theorem C02_trace_on_graph (c : Cfg) (ops : List (Nat × Op × List (Query × Nat))) (s : St) (hwf : c.me < s.modes.length) :
     Path (fsmOf c s) (fsmOf c (ops.foldl (fun s o => (stepOp c s o.1 o.2.1 o.2.2).1) s)) := by
   induction ops generalizing s with
   | nil => exact Path.refl _
